@@ -14,7 +14,7 @@ EXPLANATION = (
     'size limit) cells under the size model 1 + 40 per pair, emits all heads when unlimited (authors sharing a timestamp '
     'are all kept) and otherwise the longest newest-first prefix that fits; (R4) document removal erases the heads (shared '
     'with C16.R1); (R5) the heads rebuilt by migration 001 and maintained by entry_put, both evaluated over an abstract '
-    'records table, are the greatest (timestamp, key) per (namespace, author) with ties resolved alike (shared with C18.R2). NOT decided: exact bytes kept under a limit.'
+    'records table, are the greatest (timestamp, key) per (namespace, author) with ties resolved alike (shared with C18.R2). (R6) the store actor forwards HasNewsForUs one to one (the store-actor handler evaluated with the fields of the request as named tokens and gates / store / replica calls answered by an oracle, each step also failing in turn: the own fields of the request reach the core function in order on the addressed document, nothing is carried out after a failed step, the reply is the result of that function; the SyncHandle method evaluated: one request of its own kind, addressed to its namespace argument, each field one of its own parameters, the reply of the actor returned). NOT decided: exact bytes kept under a limit.'
 )
 ASSUMPTIONS = ["redb tables are identified by their key/value types", "postcard size computation trusted"]
 
@@ -352,9 +352,16 @@ def r5(ctx):
     ctx.floor("C13.R5", 5)
 
 
+def r6(ctx):
+    """news detection through the asynchronous handle is the store's has_news_for_us on the request's heads"""
+    from . import actorfw
+    actorfw.claim(ctx, "C13.R6", handlers=("HasNewsForUs",), clients=("has_news_for_us",), floor=3)
+
+
 def run(ctx):
     ctx.run_rule("C13.R1", r1)
     ctx.run_rule("C13.R2", r2)
     ctx.run_rule("C13.R3", r3)
     ctx.run_rule("C13.R4", r4)
     ctx.run_rule("C13.R5", r5)
+    ctx.run_rule("C13.R6", r6)
